@@ -251,20 +251,26 @@ def decision(fn, start=0, max_nodes=20000, leaf_of_block=None):
     """
     count = [0]
 
-    def ret_label(b, cur):
+    multi = {l for l, ds in fn.defs().items() if len(ds) > 1 and not fn.is_arg(l) and l != 0}
+
+    def ret_label(b, cur, lets):
         for s in fn.stmts(b):
             if s["k"] == "assign" and s["p"]["l"] == 0 and place_is_local(s["p"]):
-                cur = fn.rvalue_expr(s["r"], depth=6)
-        return cur
+                cur = subst_locals(fn.rvalue_expr(s["r"], depth=20), lets)
+            elif s["k"] == "assign" and place_is_local(s["p"]) and s["p"]["l"] in multi:
+                lets = dict(lets)
+                lets[s["p"]["l"]] = subst_locals(fn.rvalue_expr(s["r"], depth=20), lets)
+        return cur, lets
 
-    def walk(b, cur, onpath):
+    def walk(b, cur, onpath, lets=None):
+        lets = lets or {}
         count[0] += 1
         if count[0] > max_nodes:
             raise NotATree("decision structure too large in %s" % fn.name)
         if b in onpath:
             raise NotATree("loop in %s at bb%d" % (fn.name, b))
         onpath = onpath | {b}
-        cur = ret_label(b, cur)
+        cur, lets = ret_label(b, cur, lets)
         if leaf_of_block:
             lab = leaf_of_block(b)
             if lab is not None:
@@ -276,20 +282,23 @@ def decision(fn, start=0, max_nodes=20000, leaf_of_block=None):
         if k == "unreachable":
             return ("leaf", ("unreachable",), b)
         if k in ("goto", "drop", "assert"):
-            return walk(t["t"], cur, onpath)
+            return walk(t["t"], cur, onpath, lets)
         if k == "call":
             if t["dest"]["l"] == 0 and place_is_local(t["dest"]):
                 c = callee_of(t)
-                cur = ("call", c or "<indirect>", tuple(fn.expr(a, 8) for a in t["args"]))
+                cur = subst_locals(("call", c or "<indirect>", tuple(fn.expr(a, 20) for a in t["args"])), lets)
+            elif place_is_local(t["dest"]) and t["dest"]["l"] in multi:
+                lets = dict(lets)
+                lets[t["dest"]["l"]] = subst_locals(("call", callee_of(t) or "<indirect>", tuple(fn.expr(a, 20) for a in t["args"])), lets)
             if t.get("t") is None:
                 return ("leaf", ("diverge", callee_of(t)), b)
-            return walk(t["t"], cur, onpath)
+            return walk(t["t"], cur, onpath, lets)
         if k == "switch":
-            cond = fn.expr(t["a"], 10)
+            cond = subst_locals(fn.expr(t["a"], 20), lets)
             subs = {}
             for v, tb in t["targets"]:
-                subs[v] = walk(tb, cur, onpath)
-            dflt = walk(t["otherwise"], cur, onpath)
+                subs[v] = walk(tb, cur, onpath, lets)
+            dflt = walk(t["otherwise"], cur, onpath, lets)
             return ("switch", cond, subs, dflt, b)
         raise NotATree("terminator %s" % k)
 
@@ -358,3 +367,20 @@ def eval_decision_set(tree, env, checked=True):
     if isinstance(v, bool):
         v = 1 if v else 0
     return eval_decision_set(tree[2].get(v, tree[3]), env, checked)
+
+
+def subst_locals(e, lets):
+    """replace ('local', l, name) nodes by the expression last bound to l on this path"""
+    if not lets or not isinstance(e, tuple) or not e:
+        return e
+    if e[0] == "local" and e[1] in lets:
+        return lets[e[1]]
+    out = []
+    for x in e:
+        if isinstance(x, tuple) and x and isinstance(x[0], str):
+            out.append(subst_locals(x, lets))
+        elif isinstance(x, tuple):
+            out.append(tuple(subst_locals(y, lets) if isinstance(y, tuple) else y for y in x))
+        else:
+            out.append(x)
+    return tuple(out)
